@@ -79,6 +79,8 @@ def convert(rec, gindex, keep_lex=False):
             evs.append(['tval', e[1], e[2], e[3], e[4]])
         elif e[0] == 'call':
             evs.append(['call', e[1], e[2], e[3], e[4], e[5]])
+        elif e[0] == 'ccall':
+            evs.append(['ccall', e[1], e[2], e[5], e[6], e[7], e[3], e[4]])
         elif e[0] == 'dcall':
             evs.append(['dcall', e[1], e[2], e[3], e[4]])
         else:
@@ -89,6 +91,6 @@ def convert(rec, gindex, keep_lex=False):
     return {
         'id': rec['id'], 'g': gindex, 'bytes': rec['bytes'],
         'v': bool(rec['verbose']), 'ws': bool(rec['ws']), 'nl': bool(rec['nl']),
-        'sk': rec['stream'], 'ok': rec['ok'], 'threw': rec.get('threw', ''), 'partial': rec.get('partial', ''),
+        'sk': rec['stream'], 'cat': rec.get('ctx', 0), 'ctxmut': rec.get('ctxmut', 0), 'ok': rec['ok'], 'threw': rec.get('threw', ''), 'partial': rec.get('partial', ''),
         'events': evs, 'root': root, 'tree': flat, 'nlex': nlex,
     }
